@@ -562,6 +562,9 @@ fn plant_convergent_chains(sc: &mut Scenario, mv: u8, var: u8) {
         ei += 1;
         b * m >> 8
     };
+    // two forms: plain (every chain starts at a root and ends in the sink) and tree-like (chains may branch
+    // off earlier ones, some are side branches that never reach the sink, feeders tend to feed the sink)
+    let tree_form = var & 128 != 0;
     let nchains = 2 + (var & 1) as usize;
     let common_root = var & 2 != 0;
     let side_chain = var & 4 != 0;
@@ -601,7 +604,7 @@ fn plant_convergent_chains(sc: &mut Scenario, mv: u8, var: u8) {
                 None => {
                     // a later chain may branch off a job of an earlier one instead of starting at the root
                     let earlier = layout.len() - first_chain_job;
-                    if earlier > 0 && next(3) == 0 && kind != Kind::Always {
+                    if tree_form && earlier > 0 && next(3) == 0 && kind != Kind::Always {
                         vec![first_chain_job + next(earlier)]
                     } else if common_root {
                         vec![0]
@@ -632,7 +635,7 @@ fn plant_convergent_chains(sc: &mut Scenario, mv: u8, var: u8) {
     };
     let sink = layout.len();
     // not every chain has to reach the sink: the others are side branches of the cascade
-    let mut sink_deps: Vec<usize> = lasts.iter().cloned().filter(|_| next(3) != 0).collect();
+    let mut sink_deps: Vec<usize> = lasts.iter().cloned().filter(|_| !tree_form || next(3) != 0).collect();
     if sink_deps.is_empty() {
         sink_deps.push(lasts[lasts.len() - 1]);
     }
@@ -640,7 +643,7 @@ fn plant_convergent_chains(sc: &mut Scenario, mv: u8, var: u8) {
     for f in feeders.iter() {
         let span = sink + 1 - first_chain_job;
         let a = first_chain_job + next(span);
-        let b = if next(2) == 0 { sink } else { first_chain_job + next(span) };
+        let b = if tree_form && next(2) == 0 { sink } else { first_chain_job + next(span) };
         for c in [a, b] {
             if layout[c].0 != Kind::Always || c == sink {
                 if !layout[c].1.contains(f) {
